@@ -38,7 +38,7 @@ mod verif_xml_escape {
             if self.i < self.n && self.inp[self.i] == c { self.i += 1 } else { self.bad = true }
         }
         fn octet(&mut self, c: u8) {
-            self.total += 1;
+            self.total = self.total.wrapping_add(1);
             if self.pl == 0 {
                 if c == b'&' { self.acc = c as u64; self.pl = 1; }
                 else if must_escape(self.attr, c) { self.bad = true }
@@ -61,13 +61,14 @@ mod verif_xml_escape {
     impl io::Write for Unesc {
         fn write(&mut self, d: &[u8]) -> io::Result<usize> {
             // every write of write_escaped is a piece of the input or one entity: at most 6 octets
-            // (constant-bound loop; a longer write is flagged)
+            // (unrolled, so that the sink adds no loop to unwind; a longer write is flagged)
             if d.len() > 6 { self.bad = true }
-            let mut j = 0;
-            while j < 6 {
-                if j < d.len() { self.octet(d[j]) }
-                j += 1;
-            }
+            if 0 < d.len() { self.octet(d[0]) }
+            if 1 < d.len() { self.octet(d[1]) }
+            if 2 < d.len() { self.octet(d[2]) }
+            if 3 < d.len() { self.octet(d[3]) }
+            if 4 < d.len() { self.octet(d[4]) }
+            if 5 < d.len() { self.octet(d[5]) }
             Ok(d.len())
         }
         /// the sink takes everything at once (std's default write_all loop costs CBMC an unwinding per call)
@@ -103,7 +104,7 @@ mod verif_xml_escape {
         }
     }}
 
-    //@harness xml_escape_kb_n6 Kb fn=TextEscape::write_escaped bound="texts of at most 6 octets, every octet value, both modes"
+    //@harness xml_escape_kb_n6 Kb fn=TextEscape::write_escaped timeout=3000 thorough bound="texts of at most 6 octets, every octet value, both modes"
     verif_harness!{ #[kani::unwind(8)] xml_escape_kb_n6; |attr: bool, b: [u8; 6], len: usize| {
         assume(len <= 6);
         let mode = if attr { TextEscape::Attr } else { TextEscape::Pcdata };
@@ -114,6 +115,18 @@ mod verif_xml_escape {
         assert!(sink.pl == 0, "no unfinished entity at the end");
         assert!(sink.i == len, "un-escaping gives the whole input back");
         assert!(sink.total <= 36, "at most 6 octets per input octet");
+    }}
+    //@harness xml_escape_kb_n4 Kb fn=TextEscape::write_escaped bound="texts of at most 4 octets, every octet value, both modes"
+    verif_harness!{ #[kani::unwind(6)] xml_escape_kb_n4; |attr: bool, b: [u8; 6], len: usize| {
+        assume(len <= 4);
+        let mode = if attr { TextEscape::Attr } else { TextEscape::Pcdata };
+        let mut sink = Unesc { attr, inp: b, n: len, i: 0, acc: 0, pl: 0, bad: false, total: 0 };
+        let r = mode.write_escaped(&b[..len], &mut sink);
+        assert!(r.is_ok(), "writing to a sink that never fails succeeds");
+        assert!(!sink.bad, "no raw special character, only the five entities, decoded characters equal the input");
+        assert!(sink.pl == 0, "no unfinished entity at the end");
+        assert!(sink.i == len, "un-escaping gives the whole input back");
+        assert!(sink.total <= 24, "at most 6 octets per input octet");
     }}
 }
 //@end
